@@ -268,3 +268,6 @@ def run(chk, repo):
     chk.rule('C09.h', 'R-ORDER: Sec positions attached to the transcript sequence are sorted in transcript order', 1)
     chk.clauses.append('C09.h the Sec positions attached to a transcript sequence are sorted after the strand-dependent coordinate conversion')
     sorted_before_use(chk, repo, 'C09.h', 'gtf.TranscriptAnnotationModel:TranscriptAnnotationModel.get_transcript_sequence', 'DNASeqRecordWithCoordinates', 'selenocysteine', 'the converted Sec positions are in genomic order, which is descending transcript order on the - strand; PVGNode.fix_selenocysteines and the Sec truncation consume them in ascending order (a - strand transcript with two Sec codons is translated wrongly)')
+    from rules.shared import kwname
+    chk.clauses.append('C09.kw (shared R-THREAD) parameters handed on as keyword arguments keep their name: no `a=b` between two parameters of one function')
+    kwname(chk, repo, 'C09.kw', ['cli.call_alt_translation'], floor=0)
